@@ -1,5 +1,5 @@
 (* Proofs for property C19 (WebTransport streams stay attached to their session, bytes intact). *)
-From H3V Require Import Base.Bytes Base.BytesLemmas Gen.GenCodes Gen.GenVarint Gen.GenWebTransport
+From H3V Require Import Base.Bytes Base.BytesLemmas Gen.GenCodes Gen.GenVarint Gen.GenWebTransport Gen.GenBufList
   Spec.RFC9000 Spec.WTSpec Model.Varint Model.WebTransport Proofs.VarintProofs.
 From Coq Require Import ZifyBool ZifyNat ZifyN.
 Ltac Zify.zify_post_hook ::= Z.div_mod_to_equations.
@@ -17,7 +17,7 @@ Lemma gen_facts :
   wt_into_inner_keeps_buffer = true /\ wt_gate = 1 /\
   wt_fallthrough_is_noop = true /\ wt_end_of_stream_removes = true /\ wt_session_from_connect_stream = true /\
   wt_fut_guard = 1 /\ wt_tokio_guard = 1 /\ wt_fut_take_capacity = true /\ wt_tokio_take_capacity = true /\
-  wt_split_buf_to_recv = true.
+  wt_split_buf_to_recv = true /\ push_bytes_copies_whole_buffer = true.
 Proof. repeat split; reflexivity. Qed.
 
 (* ------------------------------------------------------------------ T1: the session id is the CONNECT stream id *)
@@ -710,6 +710,12 @@ Proof. destruct en; reflexivity. Qed.
 Lemma into_stream_wt a i : a_ty a = Some WT_UNI_TYPE -> a_id a = Some i -> into_stream a = AcWtUni i (a_s a).
 Proof. intros Ht Hi. unfold into_stream. rewrite Ht, Hi. reflexivity. Qed.
 
+(* STOP_SENDING is sent for stream types without a meaning: an unknown type, or (if the code has an arm for it)
+   type 0x54 while the extension is off *)
+Definition stopped_ok (en : bool) (tot : bytes) (c : N) : Prop :=
+  (c = H3_STREAM_CREATION_ERROR /\ exists t, wt_parse WT_UNI_TYPE tot = WtOtherKind t) \/
+  (en = false /\ exists i p, wt_parse WT_UNI_TYPE tot = WtStream i p).
+
 Lemma route_spec en tot term q a : acc_inv tot term q a ->
   match route_uni en q a with
   | (RtPending a', q') => term = None /\ q' = [] /\ acc_inv tot term [] a' /\ no_stream tot
@@ -718,7 +724,7 @@ Lemma route_spec en tot term q a : acc_inv tot term q a ->
       wt_parse WT_UNI_TYPE tot = WtStream i (sview s q')
   | (RtRemoved, _) => term <> None /\ no_stream tot
   | (RtDropped, _) => en = false /\ exists i p, wt_parse WT_UNI_TYPE tot = WtStream i p
-  | (RtStopped c, _) => c = H3_STREAM_CREATION_ERROR /\ exists t, wt_parse WT_UNI_TYPE tot = WtOtherKind t
+  | (RtStopped c, _) => stopped_ok en tot c
   | (RtOther t, _) => wt_parse WT_UNI_TYPE tot = WtOtherKind t
   | (RtConnError _, _) => False
   | (RtPanic _, _) => False
@@ -737,7 +743,7 @@ Proof.
     + destruct Hp as (q' & a' & -> & Ht' & Hi' & Hv' & Hg' & Hq').
       destruct Htp as [-> [[-> Hw]|[-> Hw]]].
       * rewrite (into_stream_wt a' i Ht' Hi'). rewrite gate_open_spec.
-        destruct en; [|split; [reflexivity|eauto]].
+        destruct en; [|destruct wt_disabled_stops; [right; split; [reflexivity|eauto]|split; [reflexivity|eauto]]].
         unfold sview, sgood. unfold agood, aview in *. subst rest.
         repeat split; try tauto; congruence.
       * unfold into_stream. rewrite Ht'. cbn. exact Hw.
@@ -752,7 +758,7 @@ Proof.
     + destruct Hp as (q' & a' & -> & Ht' & Hi' & Hv' & Hg' & Hq').
       destruct Htp as [[-> Hw]|[-> Hw]].
       * rewrite (into_stream_wt a' i Ht' Hi'). rewrite gate_open_spec.
-        destruct en; [|split; [reflexivity|eauto]].
+        destruct en; [|destruct wt_disabled_stops; [right; split; [reflexivity|eauto]|split; [reflexivity|eauto]]].
         unfold sview, sgood. unfold agood, aview in *. subst rest.
         repeat split; try tauto; congruence.
       * unfold into_stream. rewrite Ht'. cbn. exact Hw.
@@ -766,7 +772,7 @@ Proof.
       destruct (N.eqb_spec t 3) as [->|]; [exact Hw|].
       destruct (N.eqb_spec t WT_UNI_TYPE) as [->|].
       * assert (needs_id (Some WT_UNI_TYPE) = true) by (apply needs_id_iff; auto). congruence.
-      * split; [reflexivity|eauto].
+      * left. split; [reflexivity|eauto].
     + rewrite Hterm in Hp. destruct term.
       * destruct Hp as (q' & a' & ->). split; [discriminate|]. apply (Hnostream True Htp).
       * destruct Hp as (a' & -> & Ht' & Hi' & Hv' & Hg' & Hm').
@@ -819,7 +825,7 @@ Definition uinv (en : bool) (tot : bytes) (term : option ev) (st : uapp) : Prop 
       match r with
       | RtRemoved => term <> None /\ no_stream tot
       | RtDropped => en = false /\ exists i p, wt_parse WT_UNI_TYPE tot = WtStream i p
-      | RtStopped c => c = H3_STREAM_CREATION_ERROR /\ exists t, wt_parse WT_UNI_TYPE tot = WtOtherKind t
+      | RtStopped c => stopped_ok en tot c
       | RtOther t => wt_parse WT_UNI_TYPE tot = WtOtherKind t
       | _ => False
       end
@@ -865,8 +871,8 @@ Proof.
     + destruct H as [H _]. congruence.
     + destruct H as [He (i & p & Hp)]. split; [exact He|].
       pose proof (wt_parse_extend WT_UNI_TYPE tot b) as Hx. rewrite Hp in Hx. eauto.
-    + destruct H as [He (t & Hp)]. split; [exact He|].
-      pose proof (wt_parse_extend WT_UNI_TYPE tot b) as Hx. rewrite Hp in Hx. eauto.
+    + destruct H as [[He (t & Hp)]|[He (i & p & Hp)]]; [left|right]; (split; [exact He|]);
+        pose proof (wt_parse_extend WT_UNI_TYPE tot b) as Hx; rewrite Hp in Hx; eauto.
     + pose proof (wt_parse_extend WT_UNI_TYPE tot b) as Hx. rewrite H in Hx. exact Hx.
 Qed.
 
@@ -1009,6 +1015,10 @@ Definition uni_seen (st : uapp) : seen :=
   | UNever _ => SeenBad
   end.
 
+(* what the property allows for a stream that must not be surfaced: it is not surfaced and there is no connection
+   error (whether h3 also sends STOP_SENDING for it is not constrained) *)
+Definition not_surfaced_no_error (s : seen) : Prop := s = SeenNothing \/ exists c, s = SeenStopped c.
+
 (* T3 + T4 + T5 for unidirectional streams, against the flat-bytes specification: for EVERY history (any
    chunking, polls anywhere) that ends with a poll, the application has seen exactly what the specification
    says for the bytes and the ending that arrived *)
@@ -1016,7 +1026,7 @@ Theorem uni_run_spec : forall en m h, mode_ok m -> h_ok h ->
   let st := uni_run en m (h ++ [Poll]) in
   match wt_expect_uni en (arrived_bytes h) (end_of (arrived_term h)) with
   | ObsStream s p e => uni_seen st = SeenStream s p e
-  | ObsNothing => uni_seen st = SeenNothing
+  | ObsNothing => not_surfaced_no_error (uni_seen st)
   | ObsUnconstrained => uni_seen st = SeenStopped H3_STREAM_CREATION_ERROR \/ uni_seen st = SeenOther \/ uni_seen st = SeenNothing
   end.
 Proof.
@@ -1030,7 +1040,7 @@ Proof.
   destruct (u_ph st) as [a|i s|i e|r].
   - (* still accepting: no complete header arrived, and the stream has not ended *)
     destruct Hq as [Hq0 Hns]. destruct Hinv as [(Hg & _ & _ & Hterm & _) _]. rewrite Hq0 in Hterm. cbn in Hterm.
-    destruct (wt_parse WT_UNI_TYPE tot) as [s p| |t] eqn:Hp; auto.
+    destruct (wt_parse WT_UNI_TYPE tot) as [s p| |t] eqn:Hp; auto; try (left; reflexivity).
     exfalso. eapply Hns. reflexivity.
   - destruct Hq as [Hq0 Hb]. destruct Hinv as (_ & Hterm & Hen & Hp). rewrite Hq0 in Hterm, Hp. cbn in Hterm.
     unfold sview in Hp. rewrite Hb in Hp. cbn [concat ev_bytes app] in Hp. rewrite app_nil_r in Hp.
@@ -1040,10 +1050,12 @@ Proof.
     { clear - Ht Hh. subst term. intros b ->. induction h as [|[[b'| |c]|] r IH]; cbn in *; try discriminate; tauto. }
     destruct t as [b| |c]; [exfalso; eapply Hok; reflexivity| |]; reflexivity.
   - destruct Hinv as [_ Hr]. destruct r as [a'| |c|i s| |c|t|p]; try contradiction.
-    + destruct Hr as [Ht Hns]. destruct (wt_parse WT_UNI_TYPE tot) as [s p| |t] eqn:Hp; auto.
+    + destruct Hr as [Ht Hns]. destruct (wt_parse WT_UNI_TYPE tot) as [s p| |t] eqn:Hp; auto; try (left; reflexivity).
       exfalso. eapply Hns. reflexivity.
-    + destruct Hr as [Hen (i & p & Hp)]. rewrite Hp, Hen. reflexivity.
-    + destruct Hr as [-> (t & Hp)]. rewrite Hp. auto.
+    + destruct Hr as [Hen (i & p & Hp)]. rewrite Hp, Hen. left. reflexivity.
+    + destruct Hr as [[-> (t & Hp)]|[Hen (i & p & Hp)]]; rewrite Hp.
+      * auto.
+      * rewrite Hen. right. eauto.
     + rewrite Hr. auto.
 Qed.
 
@@ -1533,19 +1545,20 @@ Proof.
   - destruct Hi as [_ Hr]. destruct r; auto.
 Qed.
 
-(* T4: a complete 0x54 header is surfaced iff the extension is enabled; disabled: nothing at all happens *)
+(* T4: a complete 0x54 header is surfaced iff the extension is enabled; disabled: not surfaced, no connection error *)
 Theorem uni_gate : forall en m h s p, mode_ok m -> h_ok h ->
   wt_parse WT_UNI_TYPE (arrived_bytes h) = WtStream s p ->
   let seen := uni_seen (uni_run en m (h ++ [Poll])) in
   (en = true -> seen = SeenStream s p (end_of (arrived_term h))) /\
-  (en = false -> seen = SeenNothing) /\
+  (en = false -> not_surfaced_no_error seen) /\
   ((exists i d e, seen = SeenStream i d e) <-> en = true).
 Proof.
   intros en m h s p Hm Hh Hp seen.
   pose proof (uni_run_spec en m h Hm Hh) as H. cbv zeta in H. unfold wt_expect_uni in H. rewrite Hp in H.
   fold seen in H. destruct en.
   - repeat split; auto; try discriminate. eauto.
-  - repeat split; auto; try discriminate. intros (i & d & e & He). rewrite H in He. discriminate.
+  - repeat split; auto; try discriminate. intros (i & d & e & He).
+    destruct H as [H|(c & H)]; rewrite H in He; discriminate.
 Qed.
 
 (* T5: once the complete header has arrived, ONE poll surfaces the stream, whatever else has or has not arrived *)
